@@ -106,19 +106,24 @@ def main():
             os.remove(os.path.join(tlc.SPEC_DIR, cfg))
         seen, out = set(), []
         for x in r.by_tag("TS"):
-            k = json.dumps([x["profile"], x["cod"]])
+            k = json.dumps([x["profile"], x["cod"], x["transient"]])
             if k not in seen:
                 seen.add(k)
-                out.append({"profile": x["profile"], "cod": x["cod"]})
+                out.append({"profile": x["profile"], "cod": x["cod"], "transient": x["transient"]})
         return out
     beh = core.cached("c13beh" + sh, emit)
     jobs = []
-    for i, b in enumerate(beh):
+    for i, b in enumerate([b for b in beh if not b["transient"]]):
         for net, mode in (("branched", "hydraulics"), ("branched", "sequential"), ("gas", "hydraulics")):
-            jobs.append({"id": "ts%d.%s.%s" % (i, net, mode), "net": net, "mode": mode, **b})
+            jobs.append({"id": "ts%d.%s.%s" % (i, net, mode), "net": net, "mode": mode, "profile": b["profile"], "cod": b["cod"]})
     if tr == "quick":
         jobs = rnd.sample(jobs, min(len(jobs), 260))
     cases = core.pmap(run_case, jobs, chunksize=4)
+    # transient series (run_timeseries(transient=True)): hydraulics of every step = stand-alone, a step depends on the past only
+    from . import transient as TR
+    tjobs = TR.jobs_for(tr, sd, [b for b in beh if b["transient"]])
+    tcases = [x[0] for x in core.pmap(TR.run_case, tjobs, chunksize=2)]
+    cases = cases + tcases
     by_id = {c["id"]: c for c in cases}
     res, fails = validate(cases)
     cc = collections.Counter()
@@ -130,9 +135,10 @@ def main():
            "samples": [cases[0]], "behaviours_in_model": len(beh), "time_series_runs": len(cases),
            "steps_compared": sum(len(c["steps"]) for c in cases),
            "with_infeasible_step": sum(1 for c in cases if "X" in c["profile"]),
+           "transient_series": len(tcases), "transient_steps_compared": sum(len(c["steps"]) for c in tcases),
            "failing_clause_counts": dict(cc), "trace_spec_states": res.distinct,
            "evaluations": len(cases), "distinct_nontrivial": sum(1 for c in cases if "X" in c["profile"] and len(c["profile"]) >= 3),
-           "rule": "all profiles of length <= 4 over {A, B, infeasible} x continue_on_divergence, run as pandapipes time series on two nets / modes "
+           "rule": "all profiles of length <= 4 over {A, B, infeasible} x continue_on_divergence x {stationary, transient}, run as pandapipes time series on two nets / modes (transient: two heat nets with a constant-property liquid, run_timeseries(transient=True), each also over the profile without its last step) "
                    "(quick: seeded sample of 260); non-trivial = an infeasible step inside a profile of length >= 3"}
     rc = V.finish()
     core.write_evidence("C13", "model_checking", cov, time.time() - t0, len(V.violations),
@@ -146,7 +152,11 @@ def main():
 def replay(path):
     rec = json.load(open(path))
     c = rec["case"]
-    case = run_case({"id": c["id"], "net": c["net"], "mode": c["mode"], "profile": c["profile"], "cod": c["cod"]})
+    if c.get("transient"):
+        from . import transient as TR
+        case = TR.run_case({"id": c["id"], "net": c["net"], "profile": c["profile"], "cod": c["cod"]})[0]
+    else:
+        case = run_case({"id": c["id"], "net": c["net"], "mode": c["mode"], "profile": c["profile"], "cod": c["cod"]})
     res, fails = validate([case])
     for f in fails:
         print("FAIL", f)
